@@ -1,4 +1,5 @@
 import Gomjml.Core.LayoutSpec
+import Gomjml.Core.LayoutLeaves
 /-! # C03 — output is well-formed for Outlook: conditional content balanced (property theorems only) -/
 namespace Gomjml.Props.C03
 open Gomjml.Layout Gomjml.Spec
@@ -29,5 +30,23 @@ example : MsoWF ((render [.wrapper ⟨false, false, [.sec ⟨false, false, false
                                                    .sec ⟨true, true, false, false, false, false, []⟩, .raw true,
                                                    .sec ⟨true, false, false, false, true, false, [.col ⟨false, [.text]⟩]⟩]⟩]).map Tok.toG) := by
   unfold MsoWF; decide
+
+/-! ### with the content components filled in -/
+open Gomjml.LayoutLeaves in
+/-- **C03 for documents with real content components** (mj-divider's Outlook table, mj-social's and mj-navbar's Outlook cells
+    — one per element, opened by the first and handed on by a separator conditional —, mj-carousel's Outlook fall-back image, the
+    not-Outlook blocks of navbar / accordion / carousel skipped): what Outlook sees is strictly nested, for every layout tree,
+    every component, all parameter values and any number of children.  No side condition. -/
+theorem C03_components (d : Doc) : MsoWF d.render := (doc_spec d).2.1
+
+open Gomjml.Leaves Gomjml.Expand in
+/-- the Outlook cells of a horizontal social bar: with a cell open, the loop over ANY list of elements leaves exactly that cell open -/
+theorem C03_social_loop (els : List SocEl) : ∀ st, runE msoStep ⟨0, "td" :: st⟩ (socLoop els) = .ok ⟨0, "td" :: st⟩ :=
+  fun st => by simpa using socLoop_moves (step := msoStep) (Or.inr (Or.inl rfl)) els st
+
+open Gomjml.Leaves Gomjml.Expand in
+/-- the same for the links of a navbar behind the first -/
+theorem C03_navbar_loop (links : List Bool) : ∀ st, runE msoStep ⟨0, "td" :: st⟩ (navLoop false links) = .ok ⟨0, "td" :: st⟩ :=
+  fun st => by simpa using navLoop_moves (step := msoStep) (Or.inr (Or.inl rfl)) links st
 
 end Gomjml.Props.C03
